@@ -141,3 +141,17 @@ CLAIMS["C14"] = {
     "technique": "static analysis: writer/reader table inversion, exporter-name extraction from the *_info functions, "
                  "direction calculus on accumulation loops, setter/derived-field coherence over the class hierarchy",
 }
+
+CLAIMS["C15"] = {
+    "text": "Decides structural necessary conditions of a sound, symmetric comparison: every comparator predicate compares exact "
+            "type, q_registers_type, params (and q_registers for register-by-register methods) of the two operations "
+            "symmetrically; control/target edge roles are produced for every operation class that has a control and a "
+            "target; every method reachable from compare_circuits compares normalised copies (copy, unwrap_nodes, "
+            "remove_identity on every path) and never rewrites or annotates its inputs; redundancy filters delegate on "
+            "copies. All comparator functions, all paths. Does not decide completeness of the relation beyond normalisation.",
+    "ref": "DESIGN.md §5.15",
+    "note": "Trusted: networkx is_isomorphic / graph_edit_distance; the attribute set {type, q_registers, q_registers_type, "
+            "params} is what the compilers read to build a gate (confirmed in C01's hooks).",
+    "technique": "static analysis: symmetric-field extraction from comparator predicates, class-hierarchy cover of an "
+                 "isinstance test, must-pass-through normalisation on copies (alias check)",
+}
